@@ -159,6 +159,26 @@ func c16Filter(name string, opens int, o *opt.Options) {
 			o.FilterBaseLg = lgs[1]
 		}
 		return
+	case "exact-then-b10noalt", "b10-then-exactnoalt":
+		// the policy is replaced by one with another name AND another filter format, and the old
+		// one is not offered as an alternative: old tables must be read without any filter
+		first, second := filter.Filter(harness.ExactFilter{}), b(10)
+		if name[0] == 'b' {
+			first, second = second, first
+		}
+		if opens == 0 {
+			o.Filter = first
+		} else {
+			o.Filter = second
+		}
+	case "exact-then-none+b10alt":
+		// no effective policy, and an alternative that is NOT the one the tables were written with
+		if opens == 0 {
+			o.Filter = harness.ExactFilter{}
+		} else {
+			o.Filter = nil
+			o.AltFilters = []filter.Filter{b(10)}
+		}
 	case "b10-then-b1noalt":
 		// another policy without AltFilters: old tables' filters are simply not used
 		if opens == 0 {
@@ -172,7 +192,7 @@ func c16Filter(name string, opens int, o *opt.Options) {
 
 var c16Settings = []string{"none", "bloom1", "bloom10", "bloom64", "b10-then-none", "b10-then-b64alt", "b10-then-b1noalt",
 	"exact", "exact-then-none+alt", "exact-then-b10+alt", "b10-then-exact+alt", "exact-then-exact2noalt",
-	"exact-lg1-then-lg5", "exact-lg5-then-lg1", "b10-lg0-then-lg7"}
+	"exact-lg1-then-lg5", "exact-lg5-then-lg1", "b10-lg0-then-lg7", "exact-then-b10noalt", "b10-then-exactnoalt", "exact-then-none+b10alt"}
 
 func init() {
 	hk := &seqHooks{Setup: func(w *harness.World, t *seqTask) {
@@ -309,7 +329,7 @@ func init() {
 			c.SetExhaustive(exh)
 			c.Coverage["db_layout_classes"] = len(layouts)
 			c.Sample(map[string]any{"bloom_universe": c16Universe[:6], "bits": "1..64", "db_filter_settings": c16Settings})
-			c.Coverage["rule"] = "(1) bits-per-key 1..64 x every subset of a 12-key universe (thorough: + generated sets of 100, 1000, 10^4 keys): every added key must be reported present, also after reusing the generator; (2) every subset of the C13 universe in tables with block size {1,16} x filter base {1,2,4,11} x bits {1,10,64} x raw/internal keys: every exact and >= lookup must find the stored pair; (3) states/transitions: BFS over DB operation sequences (C01 alphabet) under 15 filter settings (incl. a changed FilterBaseLg after the reopen) (bloom with 1/10/64 bits, and an exact-set policy with its own name and no false positives, so that any lookup consulting a filter with a key in the wrong form misses) including tables written under one policy and reopened with no filter, with no filter + the old policy in AltFilters, with another policy + AltFilters, with another policy without AltFilters; every read must equal the sorted-map model, hence all settings agree"
+			c.Coverage["rule"] = "(1) bits-per-key 1..64 x every subset of a 12-key universe (thorough: + generated sets of 100, 1000, 10^4 keys): every added key must be reported present, also after reusing the generator; (2) every subset of the C13 universe in tables with block size {1,16} x filter base {1,2,4,11} x bits {1,10,64} x raw/internal keys: every exact and >= lookup must find the stored pair; (3) states/transitions: BFS over DB operation sequences (C01 alphabet) under 18 filter settings (incl. a changed FilterBaseLg after the reopen) (bloom with 1/10/64 bits, and an exact-set policy with its own name and no false positives, so that any lookup consulting a filter with a key in the wrong form misses) including tables written under one policy and reopened with no filter, with no filter + the old policy in AltFilters, with another policy + AltFilters, with another policy without AltFilters; every read must equal the sorted-map model, hence all settings agree"
 			c.Assume = []string{"'all key sets up to 10^4' is covered as all subsets of a 12-key universe plus a finite generated family, not all sets"}
 		},
 	})
